@@ -708,6 +708,7 @@ def semantic_update_vertex_number(spec, fi):
     own, nothing else changed; a negative or non-integer argument is refused and changes nothing"""
     import types
     from ..fold import Folder, Raised
+    from ..ql import Unknown
     order, rows = spec["order"][0], spec["rows"][0]
 
     def nni(v, name="x"):
